@@ -135,7 +135,8 @@ fn expected_lines(content: &[u8]) -> Vec<Vec<u8>> {
 }
 
 fn line_eq(got: &[u8], exp: &[u8]) -> bool {
-    got == exp || (exp.last() == Some(&b'\r') && got == &exp[..exp.len() - 1])
+    // "character for character (without the newline)": a CR before the LF belongs to the delivered line
+    got == exp
 }
 
 fn judge(content: &[u8], chunk_lens: &[usize], cap: usize, pre: usize, stutter_at: Option<usize>) -> (Vec<Failure>, Option<Obs>) {
@@ -266,7 +267,7 @@ pub fn run(ctx: &Ctx) -> i32 {
             level: "model_checking",
             rule: "schedules of writer appends vs reader polls on the real FollowFileIterator via the FollowRetry hook: all contents up to the bound x all byte-level cuts x buffer capacities x initial-content flag x <=1 stutter poll at every retry point; oracle: delivered == newline-terminated lines of the content, once, in order, byte-exact; the iterator ends only when the harness says Stop. states = (poll, appended-chunk, delivered) steps, transitions = polls. Non-trivial: at least one poll observed EOF inside a line (counted separately when inside a multi-byte character).".into(),
             exhaustive: true,
-            assumptions: vec!["appends are atomic at the granularity of one write() (the writer is another process using append writes)".into(), "a trailing CR may or may not be part of the delivered line (open point)".into()],
+            assumptions: vec!["appends are atomic at the granularity of one write() (the writer is another process using append writes)".into(), "a CR before the newline is part of the delivered line (character for character)".into()],
             bounds: json!({"max_chars": maxchars, "max_bytes": maxbytes, "capacities": CAPS}),
         },
     )
@@ -274,6 +275,8 @@ pub fn run(ctx: &Ctx) -> i32 {
 
 // ---------------------------------------------------------------------------------------------
 // executor level (child processes): the real FollowFileExecutor, which prints to stdout; start-up position (--head vs tail)
+
+static APPENDED: std::sync::atomic::AtomicUsize = std::sync::atomic::AtomicUsize::new(0);
 
 /// child: vcheck --child follow <head 0|1> <prefix hex> <chunk hex>,<chunk hex>,...
 pub fn child(args: &[String]) -> i32 {
@@ -310,6 +313,7 @@ pub fn child(args: &[String]) -> i32 {
         if next < chunks.len() {
             appender.write_all(&chunks[next]).unwrap();
             next += 1;
+            APPENDED.store(next, std::sync::atomic::Ordering::SeqCst);
             Action::Continue
         } else {
             Action::Stop
@@ -325,12 +329,18 @@ pub fn child(args: &[String]) -> i32 {
     };
     let r = catch(|| ex.execute());
     verif_hooks::clear();
+    println!("FOLLOW-APPENDED {}", APPENDED.load(std::sync::atomic::Ordering::SeqCst));
     match r {
         Ok(Ok(())) => println!("FOLLOW-END ok"),
         Ok(Err(e)) => println!("FOLLOW-END error {}", e),
         Err(p) => println!("FOLLOW-END panic {}", p.msg),
     }
     0
+}
+
+thread_local! {
+    /// number of chunks the writer had appended when the last follow child ended
+    pub static LAST_APPENDED: RefCell<usize> = RefCell::new(0);
 }
 
 /// run the real FollowFileExecutor in a child process; returns (delivered `input` values, end marker, child ok)
@@ -346,6 +356,8 @@ pub fn follow_child(head: bool, prefix: &[u8], chunks: &[Vec<u8>], stmt: &str, i
             end = rest.to_string();
         } else if l.starts_with("FOLLOW-ERROR") {
             end = l.to_string();
+        } else if let Some(n) = l.strip_prefix("FOLLOW-APPENDED ") {
+            LAST_APPENDED.with(|a| *a.borrow_mut() = n.parse().unwrap_or(usize::MAX));
         } else if !l.is_empty() {
             delivered.push(l.to_string());
         }
@@ -370,6 +382,7 @@ fn executor_case(head: bool, prefix: &[u8], content: &[u8], chunk_lens: &[usize]
             end = rest.to_string();
         } else if l.starts_with("FOLLOW-ERROR") {
             end = l.to_string();
+        } else if l.starts_with("FOLLOW-APPENDED") {
         } else if let Ok(j) = serde_json::from_str::<J>(l) {
             if let Some(s) = j["input"].as_str() {
                 delivered.push(s.as_bytes().to_vec());
